@@ -17,6 +17,10 @@ func init() { register("C05", true, checkC05) }
 
 func checkC05(c *Ctx) {
 	e1CheckConstants(c, "C05-K8", []string{"dhcpv6.", "iana.StatusCode", "iana.Arch", "iana.HWType", "iana.EnterpriseID"}, 200)
+	byteOrderRule(c, "C05-K10", []string{"dhcpv6", "iana", "rfc1035label"}, 40)
+	e8CheckRejects(c, "C05-K11", func(n string) bool {
+		return strings.Contains(n, "dhcpv6.") || strings.Contains(n, "iana.") || strings.Contains(n, "rfc1035label.")
+	}, 15)
 	r := c.R
 	r.Decides = append(r.Decides,
 		"K1 exact tiling: every decoder of dhcpv6/iana/rfc1035label returns a nil error only via (a) FinError() of a Lexer over its whole parameter, (b) an explicit len(p)==c guard, (c) wholesale use of the parameter, (d) delegation of the whole parameter or of the whole remainder to a decoder that itself satisfies K1, with its error propagated, or (e) a ledgered index-driven decoder (labels); reasoned exception: OptDHCPv4Msg delegates to dhcpv4.FromBytes (C04)",
